@@ -89,6 +89,8 @@ def gen_cases(tier, seed):
         for a in range(d['pdim']):
             cases.append(dict(mode='insert_remove', shape=d, dir=a))
         cases.append(dict(mode='refine_remove', shape=d))
+        if d['pdim'] >= 2:
+            cases.append(dict(mode='multi_dir', shape=d))
     depth = 3 if tier == 'quick' else 4
     for kind in ('curve', 'curve_rational', 'surface', 'surface_rational', 'volume'):
         sysm = HistSystem(kind)
@@ -338,8 +340,48 @@ class HistSystem(object):
         return ok
 
 
+def _multi_dir(case, ctx):
+    """one call inserting in several directions, one call removing in the same directions (every subset of >= 2
+    directions, counts 1 and, where the degree allows, 2)"""
+    from geomdl import operations
+    desc = case['shape']
+    pd = desc['pdim']
+    ctx.state(dict(d=desc, m='multi'), nontrivial=True)
+    vals = [0.3, 0.6, 0.45]
+    for sub in itertools.chain.from_iterable(itertools.combinations(range(pd), k) for k in range(2, pd + 1)):
+        for cnt in (1, 2):
+            if any(desc['degrees'][a] < cnt for a in sub):
+                continue
+            if 'only' in case and case['only'] != [list(sub), cnt]:
+                continue
+            base = S.build(desc, ctx.seed)
+            model0 = R.def_from_obj(base)
+            net0 = _net(base)
+            prm = [None] * pd
+            num = [0] * pd
+            for a in sub:
+                prm[a], num[a] = vals[a], cnt
+            feats = dict(pdim=pd, rational=desc['rational'], directions=''.join(NM[a] for a in sub), count=cnt, via='operations')
+            rc = dict(case, only=[list(sub), cnt])
+            try:
+                operations.insert_knot(base, prm, num)
+                operations.remove_knot(base, prm, num)
+            except Exception as e:
+                ctx.check('C06.remove.no_exception', False, rc, feats, 'multi-direction removal succeeds', repr(e))
+                continue
+            ok_kv = [list(k) for k in _dirs(base)] == [[float(x) for x in kv] for kv in model0['kvs']]
+            ctx.check('C06.multi_direction.knotvectors', ok_kv, rc, feats, [[float(x) for x in kv] for kv in model0['kvs']],
+                      [list(k) for k in _dirs(base)])
+            if ok_kv and _sizes(base) == list(model0['sizes']):
+                ctx.close('C06.multi_direction.control_points_restored', _net(base), net0, TOL, S.max_abs(model0), rc, feats)
+            else:
+                ctx.check('C06.multi_direction.control_points_restored', False, rc, feats, list(model0['sizes']), _sizes(base))
+
+
 def run_case(case, ctx):
     m = case['mode']
+    if m == 'multi_dir':
+        return _multi_dir(case, ctx)
     if m == 'insert_remove':
         _insert_remove(case, ctx)
     elif m == 'refine_remove':
